@@ -23,6 +23,55 @@ pub fn clear_rng() {
     SEEDED.with(|s| *s.borrow_mut() = None);
 }
 
+static GLOBAL_SEED: std::sync::atomic::AtomicU64 = std::sync::atomic::AtomicU64::new(0);
+static GLOBAL_SET: std::sync::atomic::AtomicBool = std::sync::atomic::AtomicBool::new(false);
+
+/// Process-wide seed for planner runs that happen on worker threads (rayon): while it is set, every
+/// joint-space planning call seeds the sampler of its own thread from (seed, start, goal), so the call
+/// is a pure function of its arguments whatever thread executes it. `None` switches this off.
+pub fn set_global_seed(seed: Option<u64>) {
+    use std::sync::atomic::Ordering;
+    match seed {
+        Some(s) => {
+            GLOBAL_SEED.store(s, Ordering::SeqCst);
+            GLOBAL_SET.store(true, Ordering::SeqCst);
+        }
+        None => GLOBAL_SET.store(false, Ordering::SeqCst),
+    }
+}
+
+/// Guard created at the start of a joint-space planning call (see `set_global_seed`).
+pub struct SequenceGuard {
+    active: bool,
+}
+
+impl SequenceGuard {
+    pub fn new(start: &[f64], goal: &[f64]) -> Self {
+        use std::sync::atomic::Ordering;
+        if !GLOBAL_SET.load(Ordering::SeqCst) {
+            return SequenceGuard { active: false };
+        }
+        // FNV-1a over the seed and the bit patterns of start and goal
+        let mut h: u64 = 0xcbf29ce484222325 ^ GLOBAL_SEED.load(Ordering::SeqCst);
+        for v in start.iter().chain(goal.iter()) {
+            for b in v.to_bits().to_le_bytes() {
+                h ^= b as u64;
+                h = h.wrapping_mul(0x100000001b3);
+            }
+        }
+        seed_rng(h);
+        SequenceGuard { active: true }
+    }
+}
+
+impl Drop for SequenceGuard {
+    fn drop(&mut self) {
+        if self.active {
+            clear_rng();
+        }
+    }
+}
+
 /// Generator handed to the sampler: the seeded thread-local one when installed,
 /// otherwise the fallback it wraps.
 pub struct HookRng<'a, R: RngCore> {
